@@ -21,6 +21,9 @@ CLAIMS = {
  "C14": ("emit/advance pairing path rules, flush-before-marker ordering with error gating, control dependence on the resume offset, set agreement of emitted vs applied op types, bound-by-read-count guard rule (go/ssa)",
          "Decides structural necessary conditions, not the behaviour: overlay ops are written only by fresh/skip/Finalize and each advances readOffset by its extent; Finalize flushes (checked) before the end marker; magic/header only at offset 0 with seeded counters; the applier handles every emitted op type and succeeds only at the marker; the old-file window is inspected only below the count read; the committer truncates at the applier's final position. Window/skip index arithmetic is NOT decided.",
          "DESIGN.md 4 (C14)"),
+ "C02": ("effect confinement with interprocedural path provenance (which folder a file-system mutator's path derives from, which API can reach it), dominance/error-gating of commit phases, comparator shape, set coverage of entry kinds, unification-based index-space inference (go/ssa + call graph)",
+         "Decides structural necessary conditions, not the behaviour: every file-system mutator reachable from the overlay bowl's patching-phase API works under the stage folder and none touches the output folder or target pool, while every output-folder mutator is reachable only from Commit (the 'old build intact until commit' sentence, structurally); commit phases run in the required order with errors checked; ghosts are deleted longest path first and detected for files, symlinks and dirs; overlays end with truncation; no integer is used both as a new-build and as an old-build file index. That the commit result equals the new build, map-order independence of applyTranspositions and kind changes are NOT decided.",
+         "DESIGN.md 4 (C02)"),
  "C03": ("set agreement over type-checked field accesses (saved vs restored checkpoint fields, per type and per Save/Resume implementation; gob registrations), literal-completeness, must-pass-through / error-gating path rules, constant flag checks, control-dependence provenance (go/ssa)",
          "Decides structural necessary conditions, not the behaviour: every checkpoint field is saved and restored (type level, and per Bowl/EntryWriter implementation: what its Save writes its own Resume reads); the literal handed to SaveConsumer.Save is complete; entry writers report an offset only after Flush and a checked fsync; reopening never truncates and repositions from the checkpoint (both offsets for the overlay writer); every successful series end finalizes the writer; work lists are de-duplicated by their owners; checkpoint payload types are gob-registered; checkpoints are requested inside the loops and offered. Agreement of the four state layers at every interruption point and content equality after resume are NOT decided.",
          "DESIGN.md 4 (C03)"),
